@@ -216,11 +216,23 @@ func c12GenBlock(r *Rand, depth int, held []bool, maxHeld int) *c12Block {
 		}
 		if nc > 0 && b.kind != 'n' && r.Bool() {
 			last := b.child[nc-1]
-			last.kind = b.kind
 			last.up = true
+			c12SetChainKind(last, b.kind)
 		}
 	}
 	return b
+}
+
+// c12SetChainKind gives a block and the chain of ^-children below it one exit kind.
+func c12SetChainKind(b *c12Block, kind byte) {
+	b.kind = kind
+	if n := len(b.child); n > 0 && b.child[n-1].up {
+		if kind == 'n' {
+			b.child[n-1].up = false
+		} else {
+			c12SetChainKind(b.child[n-1], kind)
+		}
+	}
 }
 
 func c12GenRole(r *Rand) []*c12Block {
